@@ -113,9 +113,24 @@ static void val_of(OS& o, const Constraint& x) { val_tok(o, x); }
 static void val_of(OS& o, const Generator& x) { val_tok(o, x); }
 static void val_of(OS& o, const Congruence& x) { val_tok(o, x); }
 static void val_of(OS& o, const Grid_Generator& x) { val_tok(o, x); }
-static void val_of(OS& o, const Constraint_System& x) { val_tok(o, x); }
+// In the histories of the semantic domains the auxiliary constraint / congruence systems are values
+// by what they denote (x.constraints() of a copy may legitimately be written differently); in the
+// `lin` histories every system is the exact sequence of its rows.
+static bool g_semantic_sys = false;
+static dimension_type g_dim = 0;
+static void val_of(OS& o, const Constraint_System& x) {
+  if (!g_semantic_sys) { val_tok(o, x); return; }
+  Constraint_System t(x); val_cs(o, t, std::max(g_dim, t.space_dimension()));
+}
 static void val_of(OS& o, const Generator_System& x) { val_tok(o, x); }
-static void val_of(OS& o, const Congruence_System& x) { val_tok(o, x); }
+static void val_of(OS& o, const Congruence_System& x) {
+  if (!g_semantic_sys) { val_tok(o, x); return; }
+  Congruence_System t(x);
+  dimension_type n = std::max(g_dim, t.space_dimension()), m = 0;
+  for (Congruence_System::const_iterator i = t.begin(); i != t.end(); ++i) ++m;
+  o << " G " << n << " " << m;
+  for (Congruence_System::const_iterator i = t.begin(); i != t.end(); ++i) put_cg(o, *i, n);
+}
 static void val_of(OS& o, const Grid_Generator_System& x) { val_tok(o, x); }
 
 template <class T> static std::string val_str(const T& x) {
@@ -403,7 +418,7 @@ template <class D> struct DomHist : Exec {
   typedef Is<D> is;
   static const Shape sh = Tr<D>::sh;
 
-  DomHist(uint64_t seed, dimension_type n_) : r(seed), n(n_) {}
+  DomHist(uint64_t seed, dimension_type n_) : r(seed), n(n_) { g_semantic_sys = true; g_dim = n_; }
 
   void observe_all() {
     for (int i = 0; i < NP; ++i) if (X[i]) J.line("obs " + std::to_string(i) + val_str(*X[i]));
@@ -440,16 +455,17 @@ template <class D> struct DomHist : Exec {
     }
   }
 
-  // ---- widenings (after an upper bound, so that the precondition y <= x holds) --------------
+  // ---- widenings: a separate upper-bound step first, so that the precondition y <= x holds ------
   template <class W> void widen(const char* nm, int d, int a, W w) {
     bool tok = r.chance(1, 3); unsigned t0 = r.below(3);
-    op2(std::string("ub_then_") + nm, d, *X[d], a, *X[a], [&](D& x, const D& y) {
-      x.upper_bound_assign(y); unsigned t = t0; w(x, y, tok ? &t : (unsigned*)0); });
+    op2("upper_bound_assign", d, *X[d], a, *X[a], [](D& x, const D& y) { x.upper_bound_assign(y); });
+    op2(nm, d, *X[d], a, *X[a], [&](D& x, const D& y) { unsigned t = t0; w(x, y, tok ? &t : (unsigned*)0); });
   }
   template <class W> void limited(const char* nm, int d, int a, int b, W w) {
     bool tok = r.chance(1, 3); unsigned t0 = r.below(3);
-    op3(std::string("ub_then_") + nm, d, *X[d], a, *X[a], b, *X[b], [&](D& x, const D& y, const D& z) {
-      x.upper_bound_assign(y); unsigned t = t0; w(x, y, z, tok ? &t : (unsigned*)0); });
+    op2("upper_bound_assign", d, *X[d], a, *X[a], [](D& x, const D& y) { x.upper_bound_assign(y); });
+    op3(nm, d, *X[d], a, *X[a], b, *X[b], [&](D& x, const D& y, const D& z) { unsigned t = t0; w(x, y, z, tok ? &t : (unsigned*)0); },
+        b == d ? "own=1" : "");
   }
 
   void widening_step(int d, int a) {
@@ -483,6 +499,14 @@ template <class D> struct DomHist : Exec {
       widen("widening_assign", d, a, [](D& x, const D& y, unsigned* t) { x.widening_assign(y, t); });
     }
   }
+  // BD_Shape / Octagonal_Shape::get_limiting_shape index the matrix out of bounds for a constraint
+  // without variables (e.g. the `0 = 1' of an empty shape's constraints()): not C13's business
+  static Constraint_System nontrivial(const Constraint_System& cs) {
+    Constraint_System out;
+    for (Constraint_System::const_iterator i = cs.begin(); i != cs.end(); ++i)
+      if (!i->is_tautological() && !i->is_inconsistent()) out.insert(*i);
+    return out;
+  }
   void limited_step(int d, int a, int b) {
     unsigned k = r.below(4);
     if constexpr (is::poly) {
@@ -491,14 +515,14 @@ template <class D> struct DomHist : Exec {
       else if (k == 2) limited("bounded_H79_extrapolation_assign", d, a, b, [](D& x, const D& y, const D& z, unsigned* t) { x.bounded_H79_extrapolation_assign(y, z.constraints(), t); });
       else limited("bounded_BHRZ03_extrapolation_assign", d, a, b, [](D& x, const D& y, const D& z, unsigned* t) { x.bounded_BHRZ03_extrapolation_assign(y, z.minimized_constraints(), t); });
     } else if constexpr (is::bds) {
-      if (k == 0) limited("limited_CC76_extrapolation_assign", d, a, b, [](D& x, const D& y, const D& z, unsigned* t) { x.limited_CC76_extrapolation_assign(y, z.constraints(), t); });
-      else if (k == 1) limited("limited_BHMZ05_extrapolation_assign", d, a, b, [](D& x, const D& y, const D& z, unsigned* t) { x.limited_BHMZ05_extrapolation_assign(y, z.constraints(), t); });
-      else limited("limited_H79_extrapolation_assign", d, a, b, [](D& x, const D& y, const D& z, unsigned* t) { x.limited_H79_extrapolation_assign(y, z.minimized_constraints(), t); });
+      if (k == 0) limited("limited_CC76_extrapolation_assign", d, a, b, [](D& x, const D& y, const D& z, unsigned* t) { x.limited_CC76_extrapolation_assign(y, nontrivial(z.constraints()), t); });
+      else if (k == 1) limited("limited_BHMZ05_extrapolation_assign", d, a, b, [](D& x, const D& y, const D& z, unsigned* t) { x.limited_BHMZ05_extrapolation_assign(y, nontrivial(z.constraints()), t); });
+      else limited("limited_H79_extrapolation_assign", d, a, b, [](D& x, const D& y, const D& z, unsigned* t) { x.limited_H79_extrapolation_assign(y, nontrivial(z.minimized_constraints()), t); });
     } else if constexpr (is::oct) {
-      if (k < 2) limited("limited_CC76_extrapolation_assign", d, a, b, [](D& x, const D& y, const D& z, unsigned* t) { x.limited_CC76_extrapolation_assign(y, z.constraints(), t); });
-      else limited("limited_BHMZ05_extrapolation_assign", d, a, b, [](D& x, const D& y, const D& z, unsigned* t) { x.limited_BHMZ05_extrapolation_assign(y, z.minimized_constraints(), t); });
+      if (k < 2) limited("limited_CC76_extrapolation_assign", d, a, b, [](D& x, const D& y, const D& z, unsigned* t) { x.limited_CC76_extrapolation_assign(y, nontrivial(z.constraints()), t); });
+      else limited("limited_BHMZ05_extrapolation_assign", d, a, b, [](D& x, const D& y, const D& z, unsigned* t) { x.limited_BHMZ05_extrapolation_assign(y, nontrivial(z.minimized_constraints()), t); });
     } else if constexpr (is::box) {
-      limited("limited_CC76_extrapolation_assign", d, a, b, [](D& x, const D& y, const D& z, unsigned* t) { x.limited_CC76_extrapolation_assign(y, z.constraints(), t); });
+      limited("limited_CC76_extrapolation_assign", d, a, b, [](D& x, const D& y, const D& z, unsigned* t) { x.limited_CC76_extrapolation_assign(y, nontrivial(z.constraints()), t); });
     } else if constexpr (is::grid) {
       if (k == 0) limited("limited_congruence_extrapolation_assign", d, a, b, [](D& x, const D& y, const D& z, unsigned* t) { x.limited_congruence_extrapolation_assign(y, z.congruences(), t); });
       else if (k == 1) limited("limited_generator_extrapolation_assign", d, a, b, [](D& x, const D& y, const D& z, unsigned* t) { x.limited_generator_extrapolation_assign(y, z.congruences(), t); });
@@ -538,11 +562,15 @@ template <class D> struct DomHist : Exec {
       /* fall through */
     case 9: case 10: widening_step(d, a); break;
     case 11:
-      if constexpr (!is::prod) { op2("simplify_using_context_assign", d, x, a, y, [](D& x, const D& y) { (void) x.simplify_using_context_assign(y); }); break; }
+      // the simplification itself is any z with z /\ y = x /\ y: its meet with a saved copy of the context is a function of the values
+      // (Octagonal_Shape::simplify_using_context_assign reaches ppl_unreachable() on plain inputs: left to C03/C04)
+      if constexpr (!is::prod && !is::oct) { op2("simplify_using_context_assign_then_meet_context", d, x, a, y, [](D& x, const D& y) {
+        D ctx(y); (void) x.simplify_using_context_assign(y); x.intersection_assign(ctx); }); break; }
       /* fall through */
     case 12:
       if constexpr (is::bds || is::oct || is::box) {
-        op2("meet_then_CC76_narrowing_assign", d, x, a, y, [](D& x, const D& y) { x.intersection_assign(y); x.CC76_narrowing_assign(y); }); break; }
+        op2("intersection_assign", d, x, a, y, [](D& x, const D& y) { x.intersection_assign(y); });
+        op2("CC76_narrowing_assign", d, *X[d], a, *X[a], [](D& x, const D& y) { x.CC76_narrowing_assign(y); }); break; }
       /* fall through */
     case 13:
       if constexpr (!is::pps && !is::prod)
@@ -566,7 +594,7 @@ template <class D> struct DomHist : Exec {
       break;
     case 16:
       if constexpr (is::poly) { op2("add_generators(y.generators())", d, x, a, y, [](D& x, const D& y) { x.add_generators(y.generators()); }); break; }
-      else if constexpr (is::grid) { op2("add_grid_generators(y.grid_generators())", d, x, a, y, [](D& x, const D& y) { x.add_grid_generators(y.grid_generators()); }); break; }
+      else if constexpr (is::grid) { op2("add_grid_generators(y.grid_generators())", d, x, a, y, [](D& x, const D& y) { D probe(x); if (probe.is_empty()) return;   /* KF-C05-11 */ x.add_grid_generators(y.grid_generators()); }); break; }
       else if constexpr (is::pps) {
         // the Determinate of y itself: the new disjunct shares its representation with y
         op2("Powerset::add_disjunct(y's Determinate)", d, x, a, y, [sel](D& x, const D& y) {
@@ -689,11 +717,11 @@ template <class D> struct DomHist : Exec {
       /* fall through */
     case 11:
       if constexpr (is::poly) { op2("add_generators(GS)", d, x, S_GS, GS, [](D& x, const Generator_System& s) { x.add_generators(s); }); break; }
-      else if constexpr (is::grid) { op2("add_grid_generators(GGS)", d, x, S_GS, GGS, [](D& x, const Grid_Generator_System& s) { x.add_grid_generators(s); }); break; }
+      else if constexpr (is::grid) { op2("add_grid_generators(GGS)", d, x, S_GS, GGS, [](D& x, const Grid_Generator_System& s) { D probe(x); if (probe.is_empty()) return;   /* KF-C05-11 */ x.add_grid_generators(s); }); break; }
       /* fall through */
     case 12:
       if constexpr (is::poly) { recycle("add_recycled_generators(GS)", d, x, S_GS, GS, [](D& x, Generator_System& s) { x.add_recycled_generators(s); }); break; }
-      else if constexpr (is::grid) { recycle("add_recycled_grid_generators(GGS)", d, x, S_GS, GGS, [](D& x, Grid_Generator_System& s) { x.add_recycled_grid_generators(s); }); break; }
+      else if constexpr (is::grid) { recycle("add_recycled_grid_generators(GGS)", d, x, S_GS, GGS, [](D& x, Grid_Generator_System& s) { D probe(x); if (probe.is_empty()) return;   /* KF-C05-11 */ x.add_recycled_grid_generators(s); }); break; }
       /* fall through */
     default:
       if constexpr (is::poly) { Generator g = rnd_gen(r, n, is::nnc, false); op1("GS.insert(g)", S_GS, GS, [&](Generator_System& s) { s.insert(g); }); }
@@ -727,7 +755,8 @@ template <class D> struct DomHist : Exec {
     case 6: case 7: op1("affine_image", d, x, [&](D& x) { x.affine_image(Variable(v), e, den); }); break;
     case 8: op1("affine_preimage", d, x, [&](D& x) { x.affine_preimage(Variable(v), e, den); }); break;
     case 9: { Relation_Symbol rel = RELS[r.below(is::nnc ? 5 : 3)];
-      if constexpr (is::grid) op1("generalized_affine_image(var)", d, x, [&](D& x) { x.generalized_affine_image(Variable(v), EQUAL, e, den, Coefficient(r.below(3))); });
+      Coefficient modulus = r.below(3);
+      if constexpr (is::grid) op1("generalized_affine_image(var)", d, x, [&](D& x) { x.generalized_affine_image(Variable(v), EQUAL, e, den, modulus); });
       else op1("generalized_affine_image(var)", d, x, [&](D& x) { x.generalized_affine_image(Variable(v), rel, e, den); });
       break; }
     case 10: {
@@ -803,7 +832,7 @@ struct LinHist : Exec {
   std::unique_ptr<Generator_System> GS[2];
   std::unique_ptr<Congruence_System> QS[2];
   std::unique_ptr<Grid_Generator_System> GGS[2];
-  LinHist(uint64_t seed, dimension_type n_) : r(seed), n(n_) {}
+  LinHist(uint64_t seed, dimension_type n_) : r(seed), n(n_) { g_semantic_sys = false; }
 
   void observe_all() {
     for (int i = 0; i < 2; ++i) {
@@ -871,11 +900,12 @@ struct LinHist : Exec {
     Coefficient c = r.range(-3, 3); if (r.chance(1, 10)) { c *= 1000003; c *= 998244353; c *= 1000000007; }
     dimension_type v = r.below(n + 1);
     unsigned k = r.below(19);
+    std::string rp = std::string("rx=") + (x.representation() == SPARSE ? "S" : "D") + " ry=" + (y.representation() == SPARSE ? "S" : "D");
     switch (k) {
-    case 0: op2("e1 += e2", d, x, a, y, [](LE& x, const LE& y) { x += y; }); break;
-    case 1: op2("e1 -= e2", d, x, a, y, [](LE& x, const LE& y) { x -= y; }); break;
-    case 2: op2("add_mul_assign(e1, c, e2)", d, x, a, y, [&](LE& x, const LE& y) { add_mul_assign(x, c, y); }); break;
-    case 3: op2("sub_mul_assign(e1, c, e2)", d, x, a, y, [&](LE& x, const LE& y) { sub_mul_assign(x, c, y); }); break;
+    case 0: op2("e1 += e2", d, x, a, y, [](LE& x, const LE& y) { x += y; }, rp); break;
+    case 1: op2("e1 -= e2", d, x, a, y, [](LE& x, const LE& y) { x -= y; }, rp); break;
+    case 2: op2("add_mul_assign(e1, c, e2)", d, x, a, y, [&](LE& x, const LE& y) { add_mul_assign(x, c, y); }, rp); break;
+    case 3: op2("sub_mul_assign(e1, c, e2)", d, x, a, y, [&](LE& x, const LE& y) { sub_mul_assign(x, c, y); }, rp); break;
     case 4: op1("e *= c", d, x, [&](LE& x) { x *= c; }); break;
     case 5: op1("neg_assign(e)", d, x, [&](LE& x) { neg_assign(x); }); break;
     case 6: op3("e1 = e2 + e3", d, x, a, y, b, z, [](LE& x, const LE& y, const LE& z) { x = y + z; }); break;
